@@ -61,10 +61,15 @@ def generate(rng, tier, override=0):
         elif k < 0.9 and e:
             del e[rng.randrange(len(e)):][:rng.choice([1, 2, 3])]
             e = e[: max(0, len(e) - rng.choice([0, 1, 2, 3]))]
-        else:
+        elif k < 0.95 or not e:
             # padding moved into the middle, non-canonical trailing bits
             q = rng.randrange(1, 5)
             e = bytearray(rng.choice([b"AA==", b"AAA=", b"A===", b"====", b"AB==", b"AAB="])) * q + e
+        else:
+            # whole valid quartets followed by a long run of '=': the output buffer is sized from the
+            # trailing run before the quartets in front of it are decoded
+            e = e[: 4 * rng.randrange(1, 1 + max(1, min(len(e) // 4, 6)))] + b"=" * rng.choice(
+                [3, 4, 5, 6, 7, 8, 9, 10, 11, 12, 16, 24, 40])
         ops.append("decbin " + hx(bytes(e)))
         ops.append("decstr " + hx(bytes(e)))
     return [ops[i:i + 20000] for i in range(0, len(ops), 20000)]
